@@ -102,115 +102,117 @@ theorem Acct.drvOp {s s' : St} {ob : Obs} {sendOk : Bool} (h : Acct s) (hr : Rou
                     exact hp hpt
                   · exact ⟨rfl, rfl, rfl, hnq, fun _ => rfl, fun hm => hm, fun hp => hp⟩
           · split at hs
-            · next hkind =>
-              simp only [Option.some.injEq, Prod.mk.injEq] at hs
-              rw [← hs.1]
-              simp only [hkind]
-              refine h.take hrun hq ho hco (oi' := { o with phase := .taken }) rfl rfl rfl rfl
-                (by show (dropSenderOpt ops0 _).length = _; rw [dropSenderOpt_length, hlen0])
-                (fun k hk => hk) ?_ rfl rfl rfl rfl rfl ?_ ?_ (fun p hp => Or.inr hp)
-                ?_ (fun p hp _ _ => hp) ?_
-              · show (dropSenderOpt ops0 _)[i]? = _
-                apply dropSenderOpt_put _ _ _ _ hset_i
-                intro e
-                obtain ⟨n, hmem, _⟩ := lookup_some e
-                exact hni _ hmem rfl
-              · intro j hji oj' hoj'
-                obtain ⟨oj, hoj, e1, e2, e3, e4, e5, e6⟩ := h.dropReg (i := i) (o := o) ops0 hset_j (o.id : Int) j hji oj' hoj' hni
-                refine ⟨oj, hoj, e1, e2, e3, e4, e5, ?_⟩
-                rcases e6 with e | ⟨f1, f2, f3, _, f5⟩
-                · exact Or.inl e
-                · refine Or.inr ⟨f1, f2, f3, ?_⟩
-                  intro p hp e
-                  rcases mem_insert hp with e' | ⟨hp1, hp2⟩
-                  · rw [e'] at e; exact hji e.symm
-                  · exact hp2 (by exact_mod_cast f5 p hp1 e)
-              · intro p hp
-                rcases mem_insert hp with e' | ⟨hp1, _⟩
-                · exact Or.inl ⟨e', hom, hidin⟩
-                · exact Or.inr hp1
-              · intro p hp _ hne
-                exact mem_insert_iff.mpr (Or.inr ⟨hp, hne⟩)
-              · intro _
-                exact Or.inr (Or.inr (Or.inl (mem_insert_iff.mpr (Or.inl rfl))))
-            · next hkind =>
-              simp only [Option.some.injEq, Prod.mk.injEq] at hs
-              rw [← hs.1]
-              obtain ⟨c, hchan⟩ : ∃ c, o.chan = some c := by
-                have := (h.kindChan i o ho).mp hkind
-                cases hc : o.chan with
-                | none => exact absurd hc this
-                | some c => exact ⟨c, rfl⟩
-              simp only [hkind, hchan]
-              refine h.take hrun hq ho hco (oi' := { o with phase := .taken, mail := .ack }) rfl rfl rfl rfl
-                (by show (modifyOp ops0 i _).length = _; rw [modifyOp_length, hlen0])
-                (fun k hk => hk) ?_ rfl rfl rfl rfl rfl ?_ (fun p hp => Or.inr hp) ?_
-                (fun p hp _ _ => hp) ?_ ?_
-              · show (modifyOp ops0 i _)[i]? = _
-                rw [modifyOp_get, if_pos rfl, hset_i]; rfl
-              · intro j hji oj' hoj'
-                have : (modifyOp ops0 i _)[j]? = some oj' := hoj'
-                rw [modifyOp_get, if_neg hji] at this
-                exact hsame j hji oj' this
-              · intro p hp
-                rcases mem_insert hp with e' | ⟨hp1, _⟩
-                · exact Or.inl ⟨by rw [e'], by rw [e']; exact hchan, rfl, hidin⟩
-                · exact Or.inr hp1
-              · intro p hp _ hne
-                exact mem_insert_iff.mpr (Or.inr ⟨hp, hne⟩)
-              · intro _
-                exact Or.inr (Or.inr (Or.inr (Or.inl ⟨c, hchan, mem_insert_iff.mpr (Or.inl rfl)⟩)))
-            · next t hkind =>
-              simp only [Option.some.injEq, Prod.mk.injEq] at hs
-              rw [← hs.1]
-              simp only [hkind]
-              refine h.take hrun hq ho hco (oi' := { o with phase := .taken, mail := .ack }) rfl rfl rfl rfl
-                (by show (modifyOp (dropSenderOpt ops0 _) i _).length = _; rw [modifyOp_length, dropSenderOpt_length, hlen0])
-                ?_ ?_ rfl rfl rfl rfl rfl ?_ (fun p hp => Or.inr (mem_erase hp).1) (fun p hp => Or.inr (mem_erase hp).1)
-                ?_ ?_ ?_
-              · intro k hk
-                exact (mem_eraseId.mp (mem_eraseId.mp hk).1).1
-              · show (modifyOp (dropSenderOpt ops0 _) i _)[i]? = _
-                rw [modifyOp_get, if_pos rfl]
-                have : (dropSenderOpt ops0 (lookup s.resultmap t))[i]? = some { o with phase := .taken } := by
+            · cases hs
+            · split at hs
+              · next hkind =>
+                simp only [Option.some.injEq, Prod.mk.injEq] at hs
+                rw [← hs.1]
+                simp only [hkind]
+                refine h.take hrun hq ho hco (oi' := { o with phase := .taken }) rfl rfl rfl rfl
+                  (by show (dropSenderOpt ops0 _).length = _; rw [dropSenderOpt_length, hlen0])
+                  (fun k hk => hk) ?_ rfl rfl rfl rfl rfl ?_ ?_ (fun p hp => Or.inr hp)
+                  ?_ (fun p hp _ _ => hp) ?_
+                · show (dropSenderOpt ops0 _)[i]? = _
                   apply dropSenderOpt_put _ _ _ _ hset_i
                   intro e
                   obtain ⟨n, hmem, _⟩ := lookup_some e
                   exact hni _ hmem rfl
-                rw [this]; rfl
-              · intro j hji oj' hoj'
-                have hoj2 : (modifyOp (dropSenderOpt ops0 (lookup s.resultmap t)) i _)[j]? = some oj' := hoj'
-                rw [modifyOp_get, if_neg hji] at hoj2
-                obtain ⟨oj, hoj, e1, e2, e3, e4, e5, e6⟩ := h.dropReg (i := i) (o := o) ops0 hset_j t j hji oj' hoj2 hni
-                refine ⟨oj, hoj, e1, e2, e3, e4, e5, ?_⟩
-                rcases e6 with e | ⟨f1, f2, f3, _, f5⟩
-                · exact Or.inl e
-                · refine Or.inr ⟨f1, f2, f3, ?_⟩
-                  intro p hp e
-                  have := mem_erase hp
-                  exact this.2 (f5 p this.1 e)
-              · intro p hp hin _
-                exact mem_erase_of hp (mem_eraseId.mp hin).2
-              · intro p hp hin _
-                exact mem_erase_of hp (mem_eraseId.mp hin).2
-              · intro hh
-                exact absurd rfl (mem_eraseId.mp (mem_eraseId.mp hh).1).2
-            · next hkind =>
-              simp only [Option.some.injEq, Prod.mk.injEq] at hs
-              rw [← hs.1]
-              simp only [hkind]
-              refine h.take hrun hq ho hco (oi' := { o with phase := .taken, mail := .ack }) rfl rfl rfl rfl
-                (by show (modifyOp ops0 i _).length = _; rw [modifyOp_length, hlen0])
-                (fun k hk => hk) ?_ rfl rfl rfl rfl rfl ?_ (fun p hp => Or.inr hp) (fun p hp => Or.inr hp)
-                (fun p hp _ _ => hp) (fun p hp _ _ => hp) ?_
-              · show (modifyOp ops0 i _)[i]? = _
-                rw [modifyOp_get, if_pos rfl, hset_i]; rfl
-              · intro j hji oj' hoj'
-                have : (modifyOp ops0 i _)[j]? = some oj' := hoj'
-                rw [modifyOp_get, if_neg hji] at this
-                exact hsame j hji oj' this
-              · intro _
-                exact Or.inr (Or.inr (Or.inr (Or.inr ⟨hkind, rfl⟩)))
+                · intro j hji oj' hoj'
+                  obtain ⟨oj, hoj, e1, e2, e3, e4, e5, e6⟩ := h.dropReg (i := i) (o := o) ops0 hset_j (o.id : Int) j hji oj' hoj' hni
+                  refine ⟨oj, hoj, e1, e2, e3, e4, e5, ?_⟩
+                  rcases e6 with e | ⟨f1, f2, f3, _, f5⟩
+                  · exact Or.inl e
+                  · refine Or.inr ⟨f1, f2, f3, ?_⟩
+                    intro p hp e
+                    rcases mem_insert hp with e' | ⟨hp1, hp2⟩
+                    · rw [e'] at e; exact hji e.symm
+                    · exact hp2 (by exact_mod_cast f5 p hp1 e)
+                · intro p hp
+                  rcases mem_insert hp with e' | ⟨hp1, _⟩
+                  · exact Or.inl ⟨e', hom, hidin⟩
+                  · exact Or.inr hp1
+                · intro p hp _ hne
+                  exact mem_insert_iff.mpr (Or.inr ⟨hp, hne⟩)
+                · intro _
+                  exact Or.inr (Or.inr (Or.inl (mem_insert_iff.mpr (Or.inl rfl))))
+              · next hkind =>
+                simp only [Option.some.injEq, Prod.mk.injEq] at hs
+                rw [← hs.1]
+                obtain ⟨c, hchan⟩ : ∃ c, o.chan = some c := by
+                  have := (h.kindChan i o ho).mp hkind
+                  cases hc : o.chan with
+                  | none => exact absurd hc this
+                  | some c => exact ⟨c, rfl⟩
+                simp only [hkind, hchan]
+                refine h.take hrun hq ho hco (oi' := { o with phase := .taken, mail := .ack }) rfl rfl rfl rfl
+                  (by show (modifyOp ops0 i _).length = _; rw [modifyOp_length, hlen0])
+                  (fun k hk => hk) ?_ rfl rfl rfl rfl rfl ?_ (fun p hp => Or.inr hp) ?_
+                  (fun p hp _ _ => hp) ?_ ?_
+                · show (modifyOp ops0 i _)[i]? = _
+                  rw [modifyOp_get, if_pos rfl, hset_i]; rfl
+                · intro j hji oj' hoj'
+                  have : (modifyOp ops0 i _)[j]? = some oj' := hoj'
+                  rw [modifyOp_get, if_neg hji] at this
+                  exact hsame j hji oj' this
+                · intro p hp
+                  rcases mem_insert hp with e' | ⟨hp1, _⟩
+                  · exact Or.inl ⟨by rw [e'], by rw [e']; exact hchan, rfl, hidin⟩
+                  · exact Or.inr hp1
+                · intro p hp _ hne
+                  exact mem_insert_iff.mpr (Or.inr ⟨hp, hne⟩)
+                · intro _
+                  exact Or.inr (Or.inr (Or.inr (Or.inl ⟨c, hchan, mem_insert_iff.mpr (Or.inl rfl)⟩)))
+              · next t hkind =>
+                simp only [Option.some.injEq, Prod.mk.injEq] at hs
+                rw [← hs.1]
+                simp only [hkind]
+                refine h.take hrun hq ho hco (oi' := { o with phase := .taken, mail := .ack }) rfl rfl rfl rfl
+                  (by show (modifyOp (dropSenderOpt ops0 _) i _).length = _; rw [modifyOp_length, dropSenderOpt_length, hlen0])
+                  ?_ ?_ rfl rfl rfl rfl rfl ?_ (fun p hp => Or.inr (mem_erase hp).1) (fun p hp => Or.inr (mem_erase hp).1)
+                  ?_ ?_ ?_
+                · intro k hk
+                  exact (mem_eraseId.mp (mem_eraseId.mp hk).1).1
+                · show (modifyOp (dropSenderOpt ops0 _) i _)[i]? = _
+                  rw [modifyOp_get, if_pos rfl]
+                  have : (dropSenderOpt ops0 (lookup s.resultmap t))[i]? = some { o with phase := .taken } := by
+                    apply dropSenderOpt_put _ _ _ _ hset_i
+                    intro e
+                    obtain ⟨n, hmem, _⟩ := lookup_some e
+                    exact hni _ hmem rfl
+                  rw [this]; rfl
+                · intro j hji oj' hoj'
+                  have hoj2 : (modifyOp (dropSenderOpt ops0 (lookup s.resultmap t)) i _)[j]? = some oj' := hoj'
+                  rw [modifyOp_get, if_neg hji] at hoj2
+                  obtain ⟨oj, hoj, e1, e2, e3, e4, e5, e6⟩ := h.dropReg (i := i) (o := o) ops0 hset_j t j hji oj' hoj2 hni
+                  refine ⟨oj, hoj, e1, e2, e3, e4, e5, ?_⟩
+                  rcases e6 with e | ⟨f1, f2, f3, _, f5⟩
+                  · exact Or.inl e
+                  · refine Or.inr ⟨f1, f2, f3, ?_⟩
+                    intro p hp e
+                    have := mem_erase hp
+                    exact this.2 (f5 p this.1 e)
+                · intro p hp hin _
+                  exact mem_erase_of hp (mem_eraseId.mp hin).2
+                · intro p hp hin _
+                  exact mem_erase_of hp (mem_eraseId.mp hin).2
+                · intro hh
+                  exact absurd rfl (mem_eraseId.mp (mem_eraseId.mp hh).1).2
+              · next hkind =>
+                simp only [Option.some.injEq, Prod.mk.injEq] at hs
+                rw [← hs.1]
+                simp only [hkind]
+                refine h.take hrun hq ho hco (oi' := { o with phase := .taken, mail := .ack }) rfl rfl rfl rfl
+                  (by show (modifyOp ops0 i _).length = _; rw [modifyOp_length, hlen0])
+                  (fun k hk => hk) ?_ rfl rfl rfl rfl rfl ?_ (fun p hp => Or.inr hp) (fun p hp => Or.inr hp)
+                  (fun p hp _ _ => hp) (fun p hp _ _ => hp) ?_
+                · show (modifyOp ops0 i _)[i]? = _
+                  rw [modifyOp_get, if_pos rfl, hset_i]; rfl
+                · intro j hji oj' hoj'
+                  have : (modifyOp ops0 i _)[j]? = some oj' := hoj'
+                  rw [modifyOp_get, if_neg hji] at this
+                  exact hsame j hji oj' this
+                · intro _
+                  exact Or.inr (Or.inr (Or.inr (Or.inr ⟨hkind, rfl⟩)))
 /-- the one hypothesis of the accounting theorems (finding F13: a request that timed out in the queue
 must not meet its own ID again, which takes a full wrap of the ID space while it waits) -/
 def FreshAt (s : St) (e : Ev) : Prop :=
